@@ -255,7 +255,8 @@ def run_with(N, names, refine=False):
     for nm in names:
         if nm.startswith("env:"):          # "env:<objective>:<box>" selects another objective / box for this run
             _, cfg["env"], cfg["box"] = nm.split(":")
-    names = [nm for nm in names if not nm.startswith("env:")]
+    pre = [int(v) for nm in names if nm.startswith("pre:") for v in nm[4:].split(",")]   # "pre:4,5": batches before Solve
+    names = [nm for nm in names if not nm.startswith(("env:", "pre:"))]
     lo, up = box(cfg["box"], N)
     f = make_env(cfg["env"], cfg)
     p = EnvProblem(N, lo, up, f)
@@ -276,6 +277,8 @@ def run_with(N, names, refine=False):
                 else:
                     s.AddListener(specs[nm][1](d))
             try:
+                for b_ in pre:
+                    s.DoGlobalIteration(b_)
                 sol = s.Solve()
             except BaseException as e:
                 err = f"{type(e).__name__}: {e}"
@@ -329,7 +332,7 @@ def console_report_ok(res):
 
 def shipped_case(task):
     N, names, refine = task["N"], task["names"], bool(task.get("refine"))
-    ref = run_with(N, [n for n in names if n.startswith("env:")], refine)
+    ref = run_with(N, [n for n in names if n.startswith(("env:", "pre:"))], refine)
     got = run_with(N, names, refine)
     ctx = f"N={N} listeners {names}" + (" refineSolution=True" if refine else "")
     if ref.get("error"):
@@ -390,6 +393,10 @@ def run(ctx):
     for N in (1, 2, 3):
         allN = [n for n in names if specs[n][0] == N]
         stasks.append(dict(N=N, names=["rec"] + allN))
+        # the first iterations made through DoGlobalIteration(k > 1) before Solve: the report counts trials, not calls
+        for mode in ("full", "custom", "result"):
+            for pre in ("pre:4,5", "pre:7", "pre:2,2,2,6"):
+                stasks.append(dict(N=N, names=[f"console-{mode}-N{N}", pre]))
         # a long run (700 trials, minimum at the end of the curve) with a recorder and each console mode
         if N == 1:
             stasks.append(dict(N=1, names=["rec", "env:lin:B1"]))
